@@ -29,7 +29,9 @@ ASSUMPTIONS = ["joblib semantics are those modelled in mc/vsched.py (sequential 
                "OS-level nondeterminism inside a task (BLAS threads) is pinned to 1 thread, not explored",
                "a conformance run under the real joblib/loky with 2 workers per level must reproduce the virtual serial bytes"]
 BOUNDS = {"quick": "state tomography scenario with 3 estimator cases, n_sample=2, n_rep=2, num_data=[10,100]; 16 parallel_mode configurations; deviation bound 1",
-          "thorough": "adds povm / gate / mprocess scenarios, n_rep=3, deviation bound 2 (sharded by first deviation)"}
+          "thorough": "adds povm / gate / mprocess scenarios with n_rep=3 at deviation bound 1; deviation bound 2 (sharded by first deviation) for the "
+                      "state scenario on the five configurations with 2 workers at one level / at all levels (a full bound-2 sweep of all "
+                      "scenarios did not finish in 3 hours on 16 cores and was cut back)"}
 CASE_TIMEOUT = 3000
 
 LEVELS = ("per_sample_unit", "per_data_generation", "per_estimator_unit", "per_estimator_execution")
@@ -153,11 +155,12 @@ def families(tier, seed):
     fams = []
     kinds = ["state"] if tier == "quick" else ["state", "povm", "gate", "mprocess"]
     n_rep = 2 if tier == "quick" else 3
-    bound = 1 if tier == "quick" else 2
     cases = []
     for kind in kinds:
         for ci, pm in enumerate(configs()):
-            if tier == "quick" or pm is None:
+            # thorough: two deviations for state tomography with 2 workers at one level (and at all levels), one deviation elsewhere
+            bound = 2 if (tier != "quick" and kind == "state" and pm is not None and set(pm.values()) == {2}) else 1
+            if tier == "quick" or pm is None or bound == 1:
                 cases.append({"kind": kind, "n_rep": n_rep, "config": ci, "bound": bound, "first": None})
             else:
                 # shard the bound-2 exploration by the first deviation (choice points known from the default run)
